@@ -144,7 +144,9 @@ func TestVerifC08Seq(t *testing.T) {
 		return ""
 	}
 	menu := func(model map[uint64]bool, added []uint64) []c08SeqOp {
-		next := uint64(10)
+		// ids start just below 256 and step by 10, so that consecutive ids differ in more than their lowest byte
+		// (the store orders its keys bytewise)
+		next := uint64(250)
 		if len(added) > 0 {
 			next = added[len(added)-1] + 10
 		}
@@ -158,7 +160,7 @@ func TestVerifC08Seq(t *testing.T) {
 			ops = append(ops, c08SeqOp{"del", id})
 		}
 		ops = append(ops, c08SeqOp{"del", 5}, c08SeqOp{"del", next + 5}) // non-existing: below everything, above the tail
-		xs := map[uint64]bool{0: true, 15: true}
+		xs := map[uint64]bool{0: true, 15: true, 255: true, 256: true}
 		for _, id := range added {
 			xs[id] = true
 		}
